@@ -596,10 +596,18 @@ class FileSplicer:
                         else:
                             body = bytes(lt[1:-1], 'utf-8').decode('unicode_escape')
                         if '{{' in body or '}}' in body: raise SpliceError('unsupported: N9 escaped braces in fn %s' % key)
-                        pieces = body.split('{}')
-                        if any('{' in p_ or '}' in p_ for p_ in pieces): raise SpliceError('unsupported: N9 format spec other than {} in fn %s' % key)
-                        argsx = [src.text_of(*p_) for p_ in parts[2:]]
-                        if len(argsx) != len(pieces) - 1: raise SpliceError('unsupported: N9 placeholder/argument count in fn %s' % key)
+                        # `{}` takes the next positional argument, `{ident}` names a variable in scope (inline format argument)
+                        toks_ = re.split(r'(\{[A-Za-z_][A-Za-z0-9_]*\}|\{\})', body)
+                        pieces = toks_[0::2]; holes = toks_[1::2]
+                        if any('{' in p_ or '}' in p_ for p_ in pieces): raise SpliceError('unsupported: N9 format spec other than {} / {ident} in fn %s' % key)
+                        pos_ = [src.text_of(*p_) for p_ in parts[2:]]
+                        argsx = []
+                        for h_ in holes:
+                            if h_ == '{}':
+                                if not pos_: raise SpliceError('unsupported: N9 placeholder/argument count in fn %s' % key)
+                                argsx.append(pos_.pop(0))
+                            else: argsx.append(h_[1:-1])
+                        if pos_: raise SpliceError('unsupported: N9 placeholder/argument count in fn %s' % key)
                         def rl(p_): return '"' + p_.replace('\\', '\\\\').replace('"', '\\"').replace('\n', '\\n') + '"'
                         out = ['{ ']
                         for i_, p_ in enumerate(pieces):
